@@ -821,4 +821,316 @@ example : MInv fleetW fleetT4.toM ∧ DynFin fleetU fleetT4.cfg fleetT4.dyn ∧
         (.buffset 2 2000 [fleetBM])) (.apply 2 2000 [1, 3]) := rfl
   rw [hw, e4, e3, e2, e1]
 
+/-! ## Whole driver runs
+
+The correspondence harness feeds `Driver/Micro.lean` a list of lines: message lines (`ML MU MS MT MA MN BS MC` —
+`mdoT`), `RC` (the configuration is replaced, registers and table stay — *no* re-packing), `MR` (public read,
+`readStepT`).  `DStep` / `drun` are exactly that; `checkedRun` is what the driver evaluates on the way
+(`stepOKb`, `stepFinb` for messages; `rcFinb` for `RC`); `driver_checked_run_legal` lifts
+`driver_checked_step_legal` to such runs. -/
+
+/-- One line of the driver's input that touches the message-level state. -/
+inductive DStep
+  /-- `ML MU MS MT MA MN BS MC`: a message, processed by `mdoT` -/
+  | msg (st : MStep)
+  /-- `RC`: the configuration parsed so far becomes current -/
+  | rc (cfg' : Config)
+  /-- `MR i a`: public read -/
+  | rd (i : Nat) (a : Int)
+
+section run
+variable (u) (immune limited : List Int) (pen : Nat → Rat)
+
+/-- What `Driver/Micro.lean` (`mstepLine`) does to its `TState` for one such line. -/
+def dstep (s : TState) : DStep → TState
+  | .msg st => mdoT u s st
+  | .rc cfg' => { s with cfg := cfg' }
+  | .rd i a => (readStepT u immune limited pen s i a).1
+
+def drun (s : TState) (steps : List DStep) : TState := steps.foldl (dstep u immune limited pen) s
+
+def isReconfig : MStep → Bool
+  | .reconfig _ => true
+  | _ => false
+
+/-- The executable check of one line in the state it is executed in: a message (never a `reconfig`: the driver
+has no such line) passes `stepOKb` and `stepFinb`, an `RC` passes `rcFinb`. -/
+def dcheck (s : TState) : DStep → Bool
+  | .msg st => !isReconfig st && stepOKb u s st && stepFinb u s st
+  | .rc cfg' => rcFinb u s cfg'
+  | .rd _ _ => true
+
+/-- Every line of the run passes its executable check (threaded through `dstep`). -/
+def checkedRun : TState → List DStep → Bool
+  | _, [] => true
+  | s, st :: rest => dcheck u s st && checkedRun (dstep u immune limited pen s st) rest
+
+/-- The side conditions of one line that are *not* executable (not evaluated by the driver):
+* message: no attribute calculation of the state before and after divides by zero (load / unload / start / stop /
+  apply / unapply only; discharges `StaticAround`);
+* `RC`: the `reconfig` clause of `StepOK` — the new configuration has unique item ids, charges in modules of
+  their own fit, recorded targets are still solar-system items, and the change is invisible to every cached node
+  (same dependencies, same evaluation, same presence of the dependencies' values);
+* read: no calculation of the state divides by zero, and `ResistSrcOK` (a resisted affector spec whose source
+  attribute reads as absent has no resistance value either; see `gapU` in `Lemmas/MicroExec.lean`). -/
+def DSideOK (hwf : rankWF u = true) (s : TState) : DStep → Prop
+  | .msg st => usesStatic st = true →
+      ErrorFree u immune limited pen (worldGraph u immune limited pen hwf) s.cfg s.dyn ∧
+      ErrorFree u immune limited pen (worldGraph u immune limited pen hwf) (mdoT u s st).cfg (mdoT u s st).dyn
+  | .rc cfg' => StepOK (worldGraph u immune limited pen hwf) s.toM (.reconfig cfg')
+  | .rd _ _ => ErrorFree u immune limited pen (worldGraph u immune limited pen hwf) s.cfg s.dyn ∧
+      ResistSrcOK u s.cfg s.dyn (spec (worldGraph u immune limited pen hwf (s.cfg, s.dyn)))
+
+/-- The non-executable side conditions along a run (one predicate, threaded through `dstep`). -/
+def RunSideOK (hwf : rankWF u = true) : TState → List DStep → Prop
+  | _, [] => True
+  | s, st :: rest => DSideOK u immune limited pen hwf s st ∧
+      RunSideOK hwf (dstep u immune limited pen s st) rest
+
+end run
+
+/-- The event of the histories above (`WStep`) a driver line is: a message is itself, `RC` is the `reconfig`
+message, a read is the read event of *some* set of nodes (the set the read fills). -/
+inductive DMatch : DStep → WStep → Prop
+  | msg (st : MStep) : DMatch (.msg st) (.micro st)
+  | rc (cfg' : Config) : DMatch (.rc cfg') (.micro (.reconfig cfg'))
+  | rd (i : Nat) (a : Int) (S : Node → Bool) : DMatch (.rd i a) (.read S)
+
+theorem isReconfig_false {st : MStep} (h : isReconfig st = false) : ∀ cfg', st ≠ .reconfig cfg' := by
+  intro cfg' he; rw [he] at h; cases h
+
+theorem readStepT_cfg_dyn (s : TState) (i : Nat) (a : Int) :
+    (readStepT u immune limited pen s i a).1.cfg = s.cfg ∧ (readStepT u immune limited pen s i a).1.dyn = s.dyn := by
+  unfold readStepT
+  cases item? s.cfg i <;> exact ⟨rfl, rfl⟩
+
+/-- One checked line of the driver is an event of the model taken under its side conditions; invariant and
+register form are kept. -/
+theorem driver_checked_dstep (hwf : rankWF u = true) (hun : UniqueAttrs u) (hR : ResistWF u) {s : TState}
+    (hfin : DynFin u s.cfg s.dyn) (inv : MInv (worldGraph u immune limited pen hwf) s.toM) (st : DStep)
+    (hchk : dcheck u s st = true) (hside : DSideOK u immune limited pen hwf s st) :
+    ∃ w, DMatch st w ∧ WStepOK u (worldGraph u immune limited pen hwf) s.toM w ∧
+      (dstep u immune limited pen s st).toM = wstep u (worldGraph u immune limited pen hwf) s.toM w ∧
+      MInv (worldGraph u immune limited pen hwf) (dstep u immune limited pen s st).toM ∧
+      DynFin u (dstep u immune limited pen s st).cfg (dstep u immune limited pen s st).dyn := by
+  have T := worldGraph_ties (immune := immune) (limited := limited) (pen := pen) hwf
+  cases st with
+  | msg st =>
+    simp only [dcheck, Bool.and_eq_true, Bool.not_eq_true'] at hchk
+    obtain ⟨⟨hr, hb⟩, hf⟩ := hchk
+    have hst := isReconfig_false hr
+    have hsf := (stepFinb_iff hst).1 hf
+    obtain ⟨ok, h1, _, _, inv', fin'⟩ :=
+      driver_checked_step_legal_of_errorFree T hwf hun hR hfin inv hst hb hsf hside
+    refine ⟨.micro st, .msg st, ⟨ok, fun hs => ⟨staticAt_of_errorFree T (hside hs).1, ?_⟩⟩, h1, inv', fin'⟩
+    rw [← h1]
+    exact staticAt_of_errorFree T (hside hs).2
+  | rc cfg' =>
+    have ok : WStepOK u (worldGraph u immune limited pen hwf) s.toM (.micro (.reconfig cfg')) :=
+      ⟨hside, fun h => by cases h⟩
+    exact ⟨.micro (.reconfig cfg'), .rc cfg', ok, rfl, micro_inv_step T hwf hun hR inv _ ok, rcFinb_sound hfin hchk⟩
+  | rd i a =>
+    obtain ⟨S, hl, he⟩ := driver_read_refines_partial hwf inv hside.1 hside.2 i a
+    refine ⟨.read S, .rd i a S, hl, he, ?_, ?_⟩
+    · show MInv _ (readStepT u immune limited pen s i a).1.toM
+      rw [he]; exact micro_inv_step T hwf hun hR inv _ hl
+    · show DynFin u (readStepT u immune limited pen s i a).1.cfg (readStepT u immune limited pen s i a).1.dyn
+      rw [(readStepT_cfg_dyn s i a).1, (readStepT_cfg_dyn s i a).2]; exact hfin
+
+/-- **A checked run of the driver is a legal history of the model.**  `s` is a driver state with registers of the
+form `DynFin` that satisfies the invariant `MInv` (e.g. the driver's initial state, `driver_init_ok`); `steps` is
+the list of lines the harness sends (messages, `RC`, `MR`).
+
+Executable hypothesis — evaluated by the driver at run time, a violation is printed (`illegal …` / `unnamed …`):
+`checkedRun … s steps = true`: every message passes `stepOKb` (the side conditions `StepOK`) and `stepFinb` (it
+names a configured item and effects of its type), every `RC` passes `rcFinb` (what the registers hold is still
+named in the new configuration; the driver does not re-pack registers at `RC`).
+
+Non-executable hypotheses — *not* checked by the driver — are the one predicate `RunSideOK … s steps`, i.e. in the
+state each line is executed in (`DSideOK`):
+* around load / unload / start / stop / apply / unapply: no attribute calculation divides by zero (`ErrorFree`
+  before and after);
+* at `RC`: the `reconfig` clause of `StepOK` (`UniqueIds`, `ChargeWF`, `TgtKinds` of the new configuration; the
+  change is invisible to the cached nodes);
+* at a read: `ErrorFree` and `ResistSrcOK`;
+together with the hypotheses on the universe: `rankWF`, `UniqueAttrs`, `ResistWF`.
+
+Conclusion: there is a history `ws` of the model, line by line the driver's (`DMatch`: message ↦ itself, `RC` ↦
+`reconfig`, read ↦ the read event of the set of nodes it fills), that satisfies `WRunOK`, and the driver's final
+state is the model's (`wrun`); `MInv` — hence every read returns the from-scratch value of the current
+registers — and `DynFin` hold in the driver's final state. -/
+theorem driver_checked_run_legal (hwf : rankWF u = true) (hun : UniqueAttrs u) (hR : ResistWF u) :
+    ∀ (steps : List DStep) (s : TState), DynFin u s.cfg s.dyn → MInv (worldGraph u immune limited pen hwf) s.toM →
+      checkedRun u immune limited pen s steps = true → RunSideOK u immune limited pen hwf s steps →
+      ∃ ws : List WStep, List.Forall₂ DMatch steps ws ∧
+        WRunOK u (worldGraph u immune limited pen hwf) s.toM ws ∧
+        (drun u immune limited pen s steps).toM = wrun u (worldGraph u immune limited pen hwf) s.toM ws ∧
+        MInv (worldGraph u immune limited pen hwf) (drun u immune limited pen s steps).toM ∧
+        DynFin u (drun u immune limited pen s steps).cfg (drun u immune limited pen s steps).dyn
+  | [], s, hfin, inv, _, _ => ⟨[], .nil, trivial, rfl, inv, hfin⟩
+  | st :: rest, s, hfin, inv, hchk, hside => by
+    have hchk' : (dcheck u s st && checkedRun u immune limited pen (dstep u immune limited pen s st) rest) = true :=
+      hchk
+    rw [Bool.and_eq_true] at hchk'
+    obtain ⟨w, hm, hok, he, inv', fin'⟩ := driver_checked_dstep hwf hun hR hfin inv st hchk'.1 hside.1
+    obtain ⟨ws, hms, hoks, hes, invF, finF⟩ :=
+      driver_checked_run_legal hwf hun hR rest (dstep u immune limited pen s st) fin' inv' hchk'.2 hside.2
+    refine ⟨w :: ws, .cons hm hms, ⟨hok, he ▸ hoks⟩, ?_, invF, finF⟩
+    show (drun u immune limited pen (dstep u immune limited pen s st) rest).toM =
+      wrun u (worldGraph u immune limited pen hwf) (wstep u (worldGraph u immune limited pen hwf) s.toM w) ws
+    rw [hes, he]
+
+/-- The driver's initial state (and its state after an `X` line) — empty configuration, empty registers, empty
+table — has registers of the form `DynFin` and satisfies the invariant. -/
+theorem driver_init_ok :
+    DynFin u ({} : Config) { loaded := fun _ => false, on := fun _ _ => false, tgts := fun _ _ => [] } ∧
+    MInv W (TState.toM ⟨{}, { loaded := fun _ => false, on := fun _ _ => false, tgts := fun _ _ => [] }, []⟩) := by
+  refine ⟨⟨fun i h => (by cases h), fun i e h => (by cases h), fun i e h => absurd rfl h, fun i e h => absurd rfl h⟩,
+    micro_inv_init (by unfold UniqueIds; exact List.nodup_nil) (fun x hx => (by cases hx)) ?_⟩
+  intro a e t ht
+  simp [targetsOf] at ht
+
+/-- A settled state whose table has no `divZero` entry has no calculation that divides by zero. -/
+theorem errorFree_of_buffSettled (hwf : rankWF u = true) (hun : UniqueAttrs u) {cfg : Config} (hc : UniqueIds cfg)
+    (hnp : ∀ e ∈ u.effects, e.isBuff = true → e.category ≠ 2) {d : Dyn}
+    (hd : BuffSettled u cfg immune limited pen d)
+    (hnz : ∀ entry ∈ evalAll u cfg immune limited pen, entry.2 ≠ .divZero) :
+    ErrorFree u immune limited pen (worldGraph u immune limited pen hwf) cfg d := by
+  intro x hx am ham
+  obtain ⟨pre, post, hsplit⟩ := List.append_of_mem ham
+  obtain ⟨heq, hne⟩ := settled_core_gen hwf hun hc (buffSettled_hval hwf hun hc hnp hd) (Or.inl hnz) pre.length
+    pre am post hsplit rfl x hx
+  rw [spec_worldGraph, ← heq]
+  exact hne
+
+/-- **What the driver prints for a read in a settled state is the entry of the specification's table.**  State
+with the invariant `MInv` that is `BuffSettled`, table without `divZero`: for a configured item `y` (`MR i a` with
+`item? cfg i = some y`) and an attribute with metadata, the value `readStepT` returns — the one the driver
+prints and the harness compares with the real code's `attrs[a]` — is `World.read` of `World.evalAll`. -/
+theorem driver_settled_read_eq_table (hwf : rankWF u = true) (hun : UniqueAttrs u)
+    (hnp : ∀ e ∈ u.effects, e.isBuff = true → e.category ≠ 2) {s : TState}
+    (inv : MInv (worldGraph u immune limited pen hwf) s.toM)
+    (hset : BuffSettled u s.cfg immune limited pen s.dyn)
+    (hnz : ∀ entry ∈ evalAll u s.cfg immune limited pen, entry.2 ≠ .divZero)
+    {i : Nat} {y : Item} (hy : item? s.cfg i = some y) {am : AttrMeta} (ham : am ∈ u.attrs) :
+    (readStepT u immune limited pen s i am.id).2 = World.read (evalAll u s.cfg immune limited pen) y am.id := by
+  have hU : UniqueIds s.cfg := inv.uniq
+  have hef := errorFree_of_buffSettled hwf hun hU hnp hset hnz
+  rw [(driver_read_value hwf inv hef hy am.id).1]
+  have hsp := settled_spec_eq_table_buff hwf hun hU hnp hnz hset (item?_mem hy) ham
+  have hnd : World.read (evalAll u s.cfg immune limited pen) y am.id ≠ .divZero :=
+    (settled_spec_eq_table_buff_of_errorFree hwf hun hU hnp hset hef (item?_mem hy) ham).2
+  have hnw : World.read (evalAll u s.cfg immune limited pen) y am.id ≠ .notWF :=
+    read_ne_notWF (evalAll_tableOK ((rankWF_iff u).1 hwf) immune limited pen).1 y am.id
+  by_cases hov : (y.kind == .skill && am.id == 280) = true
+  · unfold readerOf World.read; rw [if_pos hov, if_pos hov]; cases y.level <;> rfl
+  · have hmeta : ¬ ((attrMeta? u am.id).isNone = true) := by rw [attrMeta?_of_mem hun ham]; simp
+    unfold readerOf
+    rw [if_neg hov, if_neg hmeta, hsp]
+    cases hr : World.read (evalAll u s.cfg immune limited pen) y am.id with
+    | ok v => rfl
+    | absent => rfl
+    | divZero => exact absurd hr hnd
+    | notWF => exact absurd hr hnw
+
+/-- **Corollary: a checked driver run that ends in a settled state prints table entries.**  Hypotheses of
+`driver_checked_run_legal` (executable: `checkedRun`; non-executable: `RunSideOK`, `rankWF`, `UniqueAttrs`,
+`ResistWF`) plus, non-executable as well: no fleet-boost effect is also projectable (`hnp`), the final state is
+`BuffSettled` (the harness compares exactly this with the real service: driver command `QB`), and the table of the
+final configuration has no `divZero` entry.  Then a final `MR i a` for a configured item and an attribute with
+metadata prints `World.read (evalAll …)`. -/
+theorem driver_checked_run_reads_table (hwf : rankWF u = true) (hun : UniqueAttrs u) (hR : ResistWF u)
+    (hnp : ∀ e ∈ u.effects, e.isBuff = true → e.category ≠ 2) {s : TState} (hfin : DynFin u s.cfg s.dyn)
+    (inv : MInv (worldGraph u immune limited pen hwf) s.toM) (steps : List DStep)
+    (hchk : checkedRun u immune limited pen s steps = true) (hside : RunSideOK u immune limited pen hwf s steps)
+    (sF : TState) (hF : drun u immune limited pen s steps = sF)
+    (hset : BuffSettled u sF.cfg immune limited pen sF.dyn)
+    (hnz : ∀ entry ∈ evalAll u sF.cfg immune limited pen, entry.2 ≠ .divZero)
+    {i : Nat} {y : Item} (hy : item? sF.cfg i = some y) {am : AttrMeta} (ham : am ∈ u.attrs) :
+    (readStepT u immune limited pen sF i am.id).2 = World.read (evalAll u sF.cfg immune limited pen) y am.id := by
+  subst hF
+  obtain ⟨_, _, _, _, invF, _⟩ := driver_checked_run_legal hwf hun hR steps s hfin inv hchk hside
+  exact driver_settled_read_eq_table hwf hun hnp invF hset hnz hy ham
+
+/-- A history of messages only is matched by itself. -/
+theorem dmatch_msgs : ∀ (l : List MStep) (ws : List WStep), List.Forall₂ DMatch (l.map .msg) ws →
+    ws = l.map .micro
+  | [], _, h => by cases h; rfl
+  | st :: l, _, h => by
+    cases h with
+    | cons h1 h2 => cases h1; rw [dmatch_msgs l _ h2]; rfl
+
+/-! ### Non-vacuity of the run theorems: the fleet history as driver lines
+
+`fleetDSteps`: the four messages of `fleetHist` and the read `MR 3 37`, from the driver state `fleetT0`.
+`checkedRun` evaluates to `true`; `RunSideOK` holds (no calculation divides by zero; the universe has no resisted
+effect, so `ResistSrcOK` is vacuous); the run theorem applies; the final state is `BuffSettled`, and a final
+`MR 3 37` prints the table's entry, 150. -/
+
+def fleetDSteps : List DStep :=
+  [.msg (.start 2 [2000]), .msg (.unapply 2 2000 []), .msg (.buffset 2 2000 [fleetBM]),
+   .msg (.apply 2 2000 [1, 3]), .rd 3 37]
+
+abbrev fleetT5 : TState := drun fleetU specImmune specLimited fleetPen fleetT0 fleetDSteps
+
+theorem fleet_checkedRun : checkedRun fleetU specImmune specLimited fleetPen fleetT0 fleetDSteps = true := by
+  decide +kernel
+
+/-- ... and the check is not constantly `true`: an `RC` to a configuration without the boosting module, or
+without a boosted ship, is rejected after the boost was applied; so is a `reconfig` message. -/
+example : checkedRun fleetU specImmune specLimited fleetPen fleetT4 [.rc { fleetCfg with items := [fleetShip1, fleetShip3] }]
+      = false ∧
+    checkedRun fleetU specImmune specLimited fleetPen fleetT4 [.rc { fleetCfg with items := [fleetShip1, fleetMod] }]
+      = false ∧
+    checkedRun fleetU specImmune specLimited fleetPen fleetT4 [.rc fleetCfg] = true ∧
+    checkedRun fleetU specImmune specLimited fleetPen fleetT4 [.msg (.reconfig fleetCfg)] = false := by
+  refine ⟨by decide +kernel, by decide +kernel, by decide +kernel, by decide +kernel⟩
+
+theorem fleet_sideOK :
+    RunSideOK fleetU specImmune specLimited fleetPen (by decide) fleetT0 fleetDSteps := by
+  refine ⟨fun _ => ⟨?_, ?_⟩, fun _ => ⟨?_, ?_⟩, fun h => (by cases h), fun _ => ⟨?_, ?_⟩, ⟨?_, ?_⟩, trivial⟩
+  all_goals first
+    | (unfold ErrorFree; decide +kernel)
+    | (intro x _ tx _ attr sp hsp c r hr
+       have he := (running_mem (specsOn_mem hsp).2.1).1
+       simp only [fleetU, List.mem_cons, List.not_mem_nil, or_false] at he
+       rw [he] at hr; cases hr)
+
+/-- The run theorem applies to the driver's run; the driver's state is the model's after `fleetHist`'s messages and
+a read event. -/
+example : ∃ ws : List WStep, List.Forall₂ DMatch fleetDSteps ws ∧ WRunOK fleetU fleetW fleetT0.toM ws ∧
+    fleetT5.toM = wrun fleetU fleetW fleetT0.toM ws ∧ MInv fleetW fleetT5.toM ∧
+    DynFin fleetU fleetT5.cfg fleetT5.dyn :=
+  driver_checked_run_legal (by decide) fleet_wf.2.1 fleet_wf.2.2.1 fleetDSteps fleetT0 fleet_dynFin0
+    (micro_inv_init fleet_wf.2.2.2.1 fleet_wf.2.2.2.2.1 fleet_wf.2.2.2.2.2) fleet_checkedRun fleet_sideOK
+
+/-- The four messages alone: the driver's state is the model's after the messages of `fleetHist`. -/
+theorem fleetT4_toM : fleetT4.toM = wrun fleetU fleetW fleetS0 (fleetHist.take 4) := by
+  obtain ⟨ws, hm, _, he, _, _⟩ := driver_checked_run_legal (immune := specImmune) (limited := specLimited)
+    (pen := fleetPen) (by decide) fleet_wf.2.1 fleet_wf.2.2.1 (fleetDSteps.take 4) fleetT0 fleet_dynFin0
+    (micro_inv_init fleet_wf.2.2.2.1 fleet_wf.2.2.2.2.1 fleet_wf.2.2.2.2.2) (by decide +kernel)
+    ⟨fleet_sideOK.1, fleet_sideOK.2.1, fleet_sideOK.2.2.1, fleet_sideOK.2.2.2.1, trivial⟩
+  have := dmatch_msgs [.start 2 [2000], .unapply 2 2000 [], .buffset 2 2000 [fleetBM], .apply 2 2000 [1, 3]] ws hm
+  rw [this] at he
+  exact he
+
+theorem fleetT5_settled : BuffSettled fleetU fleetT5.cfg specImmune specLimited fleetPen fleetT5.dyn := by
+  have hc : fleetT5.cfg = fleetCfg := (readStepT_cfg_dyn fleetT4 3 37).1
+  have hd : fleetT5.dyn = (wrun fleetU fleetW fleetS0 fleetHist).dyn :=
+    (readStepT_cfg_dyn fleetT4 3 37).2.trans (congrArg MState.dyn fleetT4_toM)
+  rw [hc, hd]
+  exact fleet_hset
+
+/-- **The value the driver prints for a final `MR 3 37` after the checked run is the table's entry, 150.** -/
+example : (readStepT fleetU specImmune specLimited fleetPen fleetT5 3 37).2 = .ok 150 := by
+  have h := driver_checked_run_reads_table (immune := specImmune) (limited := specLimited) (pen := fleetPen)
+    (by decide) fleet_wf.2.1 fleet_wf.2.2.1 (by decide) fleet_dynFin0
+    (micro_inv_init fleet_wf.2.2.2.1 fleet_wf.2.2.2.2.1 fleet_wf.2.2.2.2.2) fleetDSteps fleet_checkedRun fleet_sideOK
+    fleetT5 rfl fleetT5_settled (by decide +kernel) (i := 3) (y := fleetShip3)
+    ((congrArg (fun c => item? c 3) (show fleetT5.cfg = fleetCfg from (readStepT_cfg_dyn fleetT4 3 37).1)).trans
+      fleet_item3)
+    (am := ⟨37, none, none, true, true⟩) (List.mem_cons_of_mem _ (List.mem_cons_of_mem _ List.mem_cons_self))
+  rw [h]
+  decide +kernel
+
 end Eos.C01World
